@@ -36,8 +36,11 @@ def lang_of_path(path: str):
     return None
 
 
+HEAVY = {i for i, c in CONTENTS.items() if c.get("steps")}    # seconds per analysis: used sparingly
+
+
 def ids_for(lang, shapes=None):
-    ids = BY_LANG[lang]
+    ids = [i for i in BY_LANG[lang] if i not in HEAVY]
     if shapes is None:
         return ids
     out = [i for i in ids if i.split(".", 1)[1] in shapes]
